@@ -267,6 +267,64 @@ func c18Extra(tier string, seed int64) *runner.ExtraResult {
 		atomic.AddInt64(&rowsDone, 1)
 	})
 
+	// 3. shared sub-filters: a composite built from a child slice with spare capacity (the way the typed PodsFilter
+	// functions grow theirs) is used as the first child of two further composites; building the second one must not
+	// change what the first one (or the shared base) accepts, and all three must match the reference
+	var sharedTerms int64
+	{
+		sa := atomsUpTo(atoms, 1)
+		w := worlds[0]
+		refOf := func(t *Term) BV {
+			r := newBV(w.n)
+			for k, o := range w.pristine {
+				if t.Ref(o) {
+					r.set(k)
+				}
+			}
+			return r
+		}
+		rk := rank + int64(B)*int64(B)*5 + 1
+		for _, ctor := range []string{"And", "Or"} {
+			mk := func(fs ...filter.Filter) filter.Filter {
+				if ctor == "And" {
+					return filter.And(fs...)
+				}
+				return filter.Or(fs...)
+			}
+			for _, ta := range sa {
+				for _, tb := range sa {
+					for _, tx := range sa {
+						for _, ty := range sa {
+							kids := make([]filter.Filter, 0, 8)
+							kids = append(kids, ta.Build(), tb.Build())
+							tbase := comb(ctor, ta, tb)
+							base := mk(kids...)
+							t1, t2 := comb(ctor, tbase, tx), comb(ctor, tbase, ty)
+							f1 := mk(base, tx.Build())
+							a1, b1 := w.eval(f1)
+							f2 := mk(base, ty.Build())
+							a1x, _ := w.eval(f1)
+							if d := a1.firstDiff(a1x); d >= 0 {
+								o := descObj(w.pristine[d])
+								fs.add("c18/purity", ctor+" built from a shared base changes when another composite is built from the same base", rk, func() string {
+									return fmt.Sprintf("base := %s (child slice with spare capacity); f1 := %s accepted=%v on %s; after also building %s from the same base, f1 accepts=%v", tbase.Name, t1.Name, a1.get(d), o, t2.Name, a1x.get(d))
+								})
+							}
+							compare(w, a1x, b1, refOf(t1), rk, func() *Term { return t1 })
+							a2, b2 := w.eval(f2)
+							compare(w, a2, b2, refOf(t2), rk, func() *Term { return t2 })
+							ab, bb := w.eval(base)
+							compare(w, ab, bb, refOf(tbase), rk, func() *Term { return tbase })
+							sharedTerms += 3
+							rk++
+						}
+					}
+				}
+			}
+		}
+		checkMutation(w, rk, "the shared-base composites")
+	}
+
 	for _, f := range capViolations(fs.m, 10) {
 		res.Violations = append(res.Violations, explore.Violation{Scenario: f.scenario, Messages: []string{f.msg()}, Signature: f.sig})
 	}
@@ -311,6 +369,7 @@ func c18Extra(tier string, seed int64) *runner.ExtraResult {
 	cov["terms"] = terms
 	cov["terms_depth_le2_full_atom_set"] = len(explicit)
 	cov["terms_depth3_reduced_atom_set"] = d3terms
+	cov["terms_built_from_a_shared_base"] = sharedTerms
 	cov["atoms"] = len(atoms)
 	cov["atoms_by_constructor"] = byCtor
 	cov["depth3_atoms"] = d3names
